@@ -41,7 +41,9 @@ pub(in crate::layer) fn read_layer<M: DeserializeOwned, P: AsRef<Path>>(
     // has to restore them if they're empty. This is especially important since the layer types
     // are removed from the file if it's restored. To normalize, we write an empty file if the layer
     // directory exists without the metadata file.
-    if !layer_toml_path.exists() {
+    // `Path::exists` follows symlinks: a dangling `<layer>.toml` symlink must not be mistaken for a
+    // missing file, otherwise the write below creates the link's target outside of the layer.
+    if layer_toml_path.symlink_metadata().is_err() {
         fs::write(&layer_toml_path, "")?;
     }
 
